@@ -201,17 +201,32 @@ impl Slatepack {
 
 		let decryptor = match age::Decryptor::new(&self.payload[..])? {
 			age::Decryptor::Recipients(d) => d,
-			_ => unreachable!(),
+			_ => {
+				return Err(Error::SlatepackDecryption(
+					"Slatepack payload is not encrypted to a recipient key".to_owned(),
+				))
+			}
 		};
 		let mut decrypted = vec![];
 		let mut reader = decryptor.decrypt(std::iter::once(&key as &dyn age::Identity))?;
 		reader.read_to_end(&mut decrypted)?;
 		// Parse encrypted metadata from payload, first 4 bytes of decrypted payload
 		// will be encrypted metadata length
+		if decrypted.len() < 4 {
+			return Err(Error::SlatepackDeser(
+				"Decrypted payload too short".to_owned(),
+			));
+		}
 		let mut len_bytes = [0u8; 4];
 		len_bytes.copy_from_slice(&decrypted[0..4]);
 		let meta_len = Cursor::new(len_bytes).read_u32::<BigEndian>()?;
-		self.payload = decrypted.split_off(meta_len as usize + 4);
+		let split_at = (meta_len as usize).saturating_add(4);
+		if split_at > decrypted.len() {
+			return Err(Error::SlatepackDeser(
+				"Encrypted metadata length exceeds payload".to_owned(),
+			));
+		}
+		self.payload = decrypted.split_off(split_at);
 		let meta = byte_ser::from_bytes::<SlatepackEncMetadataBin>(&decrypted)
 			.map_err(|_| Error::SlatepackSer)?
 			.0;
